@@ -347,11 +347,16 @@ def candidate_models(ctx: Ctx, ob: Obligation, n: int):
         g.add(c)
     feats = feats[:80]
     out = []
-    for h in ob.hints:
+    # generic heuristic: counterexamples usually need non-empty sequences -- try those first
+    hints = list(ob.hints)
+    if lens:
+        hints.append(z3.And(*[l >= 1 for l in lens]))
+        hints.append(z3.And(*[l >= 2 for l in lens]))
+    for h in hints:
         g.push()
         g.add(h)
         k = 0
-        while k < (1 if len(ob.hints) > 4 else 3) and guarded_check(g, ctx.timeout_ms) == z3.sat:
+        while k < (1 if len(hints) > 4 else 3) and guarded_check(g, ctx.timeout_ms) == z3.sat:
             mdl = g.model()
             out.append(extract_model(ctx, mdl, ob.inputs))
             k += 1
